@@ -209,7 +209,7 @@ def run(tier):
                            'chain_lens': [r.randint(1, 4) for _ in range(r.randint(2, 4))],
                            'contacts': list(contacts), 'acc_key': acc_key, 'kp_reuse': bool(p and i % 3 == 1),
                            'corrupt_key': bool(p and i % 3 == 1 and i % 2)})
-            if phases[-1]['kp_reuse'] and len(phases) > 1 and i % 4 != 1:
+            if phases[-1]['kp_reuse'] and len(phases) > 1 and i % 4 not in (0, 1):
                 phases[-1]['key_type'] = phases[-2]['key_type']      # usually the same key type; otherwise a loadable key of another type is reused
             if p and i % 5 == 3:
                 phases[-1]['bad_first_download'] = r.choice(['truncated', 'garbage', 'html', 'truncated-tail'])
